@@ -360,6 +360,8 @@ pub fn byte_op_name(op: &ByteOp) -> &'static str {
         ByteOp::Extend { .. } => "extension",
         ByteOp::Torn { .. } => "torn-write",
         ByteOp::Misdirect { .. } => "misdirected-read",
+        ByteOp::AadVariant { mode: 0 } => "aad-absent-vs-empty",
+        ByteOp::AadVariant { .. } => "aad-different-content",
     }
 }
 
@@ -406,6 +408,26 @@ pub fn apply_byte_op(w: &mut World, slot: usize, op: &ByteOp) -> bool {
                 nb.extend_from_slice(&o.orig[cut..]);
             }
             b = nb;
+        }
+        ByteOp::AadVariant { mode } => {
+            if w.slots[slot].kind != SlotKind::Header {
+                return false;
+            }
+            let cur = w.slots[slot].aad.clone();
+            let variant = if *mode == 0 {
+                match &cur {
+                    None => Some(vec![]),
+                    Some(v) if v.is_empty() => None,
+                    Some(_) => return false,
+                }
+            } else {
+                let mut v = cur.unwrap_or_default();
+                v.push(*mode);
+                Some(v)
+            };
+            w.slots[slot].read_aad = Some(variant);
+            w.stats.fault(byte_op_name(op));
+            return true;
         }
         ByteOp::Misdirect { other_slot } => {
             let Some(o) = w.slots.get(*other_slot) else { return false };
